@@ -787,6 +787,14 @@ class Phase(Angle):
                 except Exception:
                     return NotImplemented
 
+            if phase_out is not None:
+                # The output is used as scratch space below, so if it is one
+                # of the operands (e.g., ``phase %= divisor``), copy that one.
+                if np.may_share_memory(phase_out, dividend):
+                    dividend = dividend.copy()
+                if isinstance(divisor, Phase) and np.may_share_memory(phase_out, divisor):
+                    divisor = divisor.copy()
+
             if isinstance(divisor, Phase):
                 if divisor.imaginary:
                     return NotImplemented
